@@ -1,7 +1,7 @@
 SPECIFICATION Spec
 CONSTANTS
   TypesUnderTest <- AllTypes
-  K = 1
+  K = 2
   MaxMut = 1
   MutKinds <- QuickMuts
   MutateAll = FALSE
